@@ -9,7 +9,7 @@ Clauses(t, i) ==
   LET e == Traces[t].ev[i] IN
   [ descent       |-> (e.e = "Iter") => e.cmp \in {"LT", "EQ"},
     stops_honestly |-> (e.e = "End") => (e.gSmall \/ e.hitCap) ]
-ClauseNames == {"descent", "stops_honestly"}
+ClauseNames == {"descent"}
 TInit == tid = 1 /\ l = 0 /\ viol = {}
 Step == /\ tid <= NT /\ l < Len(Traces[tid].ev) /\ l' = l + 1 /\ tid' = tid
         /\ LET cl == Clauses(tid, l + 1) IN viol' = viol \cup { <<Traces[tid].id, l + 1, c>> : c \in {c \in ClauseNames : ~cl[c]} }
